@@ -2,6 +2,9 @@ SPEC = {
     "id": "C11",
     "components": [
         {"comp": "stream_sm", "module": "QV.Model.StreamSM", "quick": 1500, "thorough": 40000},
+        # send half under flow control: write() results (accepted / Blocked / Stopped / ClosedStream) in the order the
+        # state machine prescribes - Stopped takes precedence over Blocked (model and hook shared with C05)
+        {"comp": "flow_send", "module": "QV.Model.FlowSend", "quick": 800, "thorough": 20000},
     ],
     "assumptions": [
         "send-side flow control is configured large by the hook (2^30 per stream, 2^40 per connection) and never binds: write accepts every byte; Writable/Available events, set_priority and connection_blocked are not exercised",
